@@ -139,3 +139,19 @@ package agessh
 //@   ensures#frame i.secretKey == old(i.secretKey) && i.ourPublicKey == old(i.ourPublicKey) && i.sshKey == old(i.sshKey)   [C20]
 //@   fresh r
 //@   modifies nothing
+
+//@ func ParseIdentity(pemBytes) (id, err)
+//@   ensures#nonnil err == nil ==> id != nil                                                                        [C14 C18]
+//@   ensures#missing typeis(err, "*golang.org/x/crypto/ssh.PassphraseMissingError") ==> id(err) != 0               [C14]
+
+//@ func NewEncryptedSSHIdentity(pubKey, pemBytes, passphrase) (i, err)
+//@   requires pubKey != nil
+//@   ensures#nonnil err == nil ==> i != nil && i.recipient != nil && same(i.pemBytes, pemBytes) && i.pubKey == pubKey && i.decrypted == nil   [C14 C18 C19]
+//@   ensures#nilerr err != nil ==> i == nil                                                                         [C14]
+
+// Data-structure invariant of EncryptedSSHIdentity (established by
+// NewEncryptedSSHIdentity#nonnil, the only constructor; fields are unexported):
+// assumed here for values reaching callers through interfaces.
+//@ func (*EncryptedSSHIdentity).Recipient(i) (r)
+//@   assumes#wf r != nil
+//@   modifies nothing
